@@ -179,3 +179,18 @@ Theorem C03_source_po2_value_is_sign_times_power_of_two : forall e x,
   req (Po2CallGen.gen_po2_xq e x) (po2_val (sign1r x, e)) = true.
 Proof. exact link_po2_xq. Qed.
 Print Assumptions C03_source_po2_value_is_sign_times_power_of_two.
+(* quantized_relu_po2.__call__ from the source: clipf is _clip_power_of_two with this quantizer's fields *)
+Theorem C03_source_relu_po2_plain_value_is_the_model : forall bits mvo m slope x, 0 < rden x ->
+  let c := RP2 bits mvo m None in
+  req (Po2CallGen.gen_rpo2_xq (clip_po2 m (rpo2_min_exp bits mvo) (rpo2_max_exp bits mvo) mvo) false slope x) (po2_val (rpo2_q c x)) = true.
+Proof. exact link_rpo2_plain. Qed.
+Print Assumptions C03_source_relu_po2_plain_value_is_the_model.
+Theorem C03_source_relu_po2_leaky_nonnegative_input : forall bits mvo m s slope x, 0 < rden x -> 0 <= rnum x ->
+  let c := RP2 bits mvo m (Some s) in
+  req (Po2CallGen.gen_rpo2_xq (clip_po2 m (rpo2_min_exp bits mvo) (rpo2_max_exp bits mvo) mvo) true slope x) (po2_val (rpo2_q c x)) = true.
+Proof. exact link_rpo2_leaky_nonneg. Qed.
+Print Assumptions C03_source_relu_po2_leaky_nonnegative_input.
+Theorem C03_source_relu_po2_leaky_negative_input_is_minus_a_power_of_two : forall clipf slope x, rnum x < 0 -> 0 < rden x ->
+  Po2CallGen.gen_rpo2_xq clipf true slope x = rneg (rpow2 (clipf (rmul (rneg x) slope))).
+Proof. exact link_rpo2_leaky_negative. Qed.
+Print Assumptions C03_source_relu_po2_leaky_negative_input_is_minus_a_power_of_two.
